@@ -75,14 +75,14 @@ impl Monitor for C03 {
         let parts = ctx.case_seed(case);
         let mut rng = Rng::from_parts(&parts);
         let policy = POLICIES[(case % 5) as usize];
-        let mut profile = *rng.pick(&[Profile::Gc, Profile::Gc, Profile::Gc, Profile::Idle, Profile::Idle, Profile::Delete, Profile::Mixed, Profile::Dense]);
+        let mut profile = *rng.pick(&[Profile::Gc, Profile::Gc, Profile::Gc, Profile::Idle, Profile::Idle, Profile::Delete, Profile::Mixed, Profile::Dense, Profile::BigName, Profile::BigName]);
         // under flush-per-call policies the write cursor is known: aim entries (control
         // entries included) at block and file ends on a third of those cases
         if policy.always() && rng.chance(1, 3) {
             profile = Profile::Align;
         }
-        let nq = rng.usize(1, 4);
-        let nops = if profile == Profile::Dense { rng.usize(20, 60) } else { rng.usize(8, 40) };
+        let nq = if matches!(profile, Profile::Idle | Profile::BigName) { rng.usize(2, 7) } else { rng.usize(1, 4) };
+        let nops = if profile == Profile::Dense { rng.usize(20, 60) } else if matches!(profile, Profile::Idle | Profile::BigName) { rng.usize(20, 50) } else { rng.usize(8, 40) };
         let live_dir = ctx.scratch.sub("c03-live");
         let key = parts[2] ^ parts[1].rotate_left(32);
         let run = match live_run(&live_dir, policy, key, &parts, profile, nq, nops, |c| {
